@@ -218,6 +218,12 @@ func scenario(cfg wl.Config, sp spec) *mc.Scenario {
 				runSenders(stream, env.Cli)
 				if sp.halfClose {
 					st.closeOK = stream.CloseSend() == nil
+					if sp.disturb == "hangup" {
+						// the sender hangs up right after its graceful half-close: everything it sent
+						// successfully is in the transport and must still reach the (slow) receiver
+						_ = env.Conn.Close()
+						return
+					}
 					// wait for the handler to finish (it returns after it saw end-of-stream)
 					var in []byte
 					_ = stream.MsgRecv(&in, enc.Bytes{})
@@ -433,6 +439,13 @@ func basePlans(tier string) []mc.Plan {
 		for _, cfg := range []wl.Config{base, small} {
 			for _, dir := range []string{"c2s", "s2c"} {
 				add(cfg, spec{dir: dir, senders: [][]int{{3, 3, 1}}, receivers: 1, halfClose: true, raw: true}, 0, 1)
+			}
+		}
+		// the sender hangs up after a graceful half-close; the transport reports end-of-stream either
+		// separately or together with the last bytes
+		for _, withData := range []bool{false, true} {
+			for _, cfg := range []wl.Config{{Pipe: tr.Options{Cap: -1, EOFWithData: withData}}, {Pipe: tr.Options{Cap: -1, EOFWithData: withData}, SplitSize: 2, WriterBuf: 1}} {
+				add(cfg, spec{dir: "c2s", senders: [][]int{{3, 1, 3}}, receivers: 1, halfClose: true, disturb: "hangup"}, 0, 1)
 			}
 		}
 		// cold start: the first message races the managers' own start-up
